@@ -295,11 +295,24 @@ run_index(long long idx, void *arg)
 static size_t
 header_end(void)
 {
-    /* s3 binary files: text header up to "endhdr\n"; other files: 0 */
+    /* s3 binary files: text header up to "endhdr\n"; senone dumps: the length-prefixed title and header strings up to the
+     * empty one (the row and column counts follow); other files: 0 */
     size_t i;
     for (i = 0; i + 7 <= ORIGLEN && i < 4096; i++)
         if (memcmp(ORIG + i, "endhdr\n", 7) == 0)
             return i + 7;
+    if (strcmp(TARGET, "sendump") == 0) {
+        i = 0;
+        while (i + 4 <= ORIGLEN) {
+            uint32_t n;
+            memcpy(&n, ORIG + i, 4);
+            if (n == 0)
+                return i + 4;
+            if (n > 4096 || i + 4 + n > ORIGLEN)
+                break;
+            i += 4 + n;
+        }
+    }
     return 0;
 }
 
@@ -424,6 +437,15 @@ main(int argc, char **argv)
             for (k = 0; k < 8; k++)
                 if (vals[k] != v)
                     add_fault(FK_WORD, i, vals[k]);
+        }
+    /* every single-bit flip of the first 16 payload words (where the dimension and count words of every format live) */
+    if (!IS_FEATPARAMS && strcmp(TARGET, "noisedict.txt") != 0)
+        for (i = he; i + 4 <= ORIGLEN && i < he + 64; i += 4) {
+            uint32_t v;
+            int b;
+            memcpy(&v, ORIG + i, 4);
+            for (b = 0; b < 32; b++)
+                add_fault(FK_WORD, i, v ^ (1u << b));
         }
     /* single-bit flips: in the header text, the byte-order magic, the payload start and the trailing checksum */
     for (i = 0; i < ORIGLEN && i < he + 8; i++)
